@@ -39,6 +39,9 @@ def gen_cases(ctx):
     w = P.witness_three((0, 1, 2))
     cases = [{"sys": w, "perms": [{"order": [0, 1, 2], "cperm": list(p)} for p in itertools.permutations(range(3))], "tag": "witness-three"},
              {"sys": P.witness_single(), "perms": [{"order": [0, 1], "cperm": [0]}, {"order": [1, 0], "cperm": [0]}], "tag": "witness-single"}]
+    # staggered multi-axis constraint: every order of the five constraints (predicate only: partial_real_position is not in the Coq model)
+    ws = P.witness_stagger()
+    cases.append({"sys": ws, "perms": [{"order": [0, 1, 2, 3], "cperm": list(p)} for p in itertools.permutations(range(5))], "tag": "witness-stagger"})
     # witness_single + an unrelated object: acceptance must not depend on unrelated objects either (same constraint list)
     n = ctx.pick(54, 400)
     for i in range(n):
@@ -54,6 +57,8 @@ def run_cases(ctx, cases):
 
 def coq_expr(case, out):
     s = case["sys"]
+    if s.get("real_pos"):
+        return None
     parts = [P.agree_expr(s, p["order"], [s["cons"][i] for i in p["cperm"]], r) for p, r in zip(case["perms"], out["runs"])]
     return "(" + " && ".join(parts) + ")%bool"
 
